@@ -151,7 +151,7 @@ def analyse(meta, run, gen_path):
                 else:
                     ext_clause = True   # precondition of a vstd/core specification: unwrap, index, slice, panic...
                     clause = f"{sp.get('file_name')}:{sp.get('line_start')}"
-        if kind == "inv" and prim is not None:
+        if kind in ("inv", "hint") and prim is not None:
             tags += tags_on_lines(prim["line_start"], prim["line_end"])
             clause = b"\n".join(gen_lines[prim["line_start"] - 1:prim["line_end"]]).decode(errors="replace").strip()[:300]
         if kind == "pre":
